@@ -619,7 +619,24 @@ MappingUnmarshaller = CastUnmarshaller[tp.Mapping]
 IterableUnmarshaller = CastUnmarshaller[tp.Iterable]
 
 EnumT = tp.TypeVar("EnumT", bound=enum.Enum)
-EnumUnmarshaller = CastUnmarshaller[EnumT]
+
+
+class EnumUnmarshaller(CastUnmarshaller[EnumT], tp.Generic[EnumT]):
+    """Unmarshaller that converts an input to a member of an [`enum.Enum`][].
+
+    Note:
+        The input is looked up by value as it is first, a member's value may itself look
+        like JSON or a Python literal (`"1"`, `"null"`). Only then do we try the decoded input.
+    """
+
+    def __call__(self, val: tp.Any) -> EnumT:
+        if isinstance(val, self.t):
+            return val
+        with contextlib.suppress(ValueError):
+            return self.caster(serdes.decode(val))
+        return self.caster(serdes.load(val))
+
+
 
 
 LiteralT = tp.TypeVar("LiteralT")
